@@ -118,6 +118,13 @@ struct LockState {
   uint32_t committed() const { return pending() ? pubs[pubs.size() - 2].ver : pubs.back().ver; }
 };
 
+// properties whose API calls returned a non-owning result but left a write in the lock object; a later deadlock / blocked final
+// LockX in the same run is then attributed to them as well (a phantom grant nobody will release)
+std::string g_suspect_tags;
+void suspect(const char *tags)
+{
+  if (g_suspect_tags.find(tags) == std::string::npos) g_suspect_tags += tags;
+}
 std::string g_prop;  // set once per process from the environment: which property this process checks
 bool tagged(const char *tags) { return g_prop.empty() || strstr(tags, g_prop.c_str()) != nullptr; }
 
@@ -865,6 +872,7 @@ struct Runner {
       using OG = OptimisticLock::OptGuard;
       CallInfo cg = pre_call(L, "GetVersion", kNone);
       OG og = L.lock->GetVersion();
+      if (dsim::watched_write_seq() != 0) suspect("[C03]");
       post_call();
       check_sampled_version(L, cg, og.GetVersion(), "GetVersion", "[C03]");
       expect_bool(og, false, "OptGuard");
@@ -877,6 +885,7 @@ struct Runner {
           case kOptVerify: {
             CallInfo ci = pre_call(L, "VerifyVersion", kNone);
             ok = og.VerifyVersion();
+            if (dsim::watched_write_seq() != 0) suspect("[C03]");
             post_call();
             check_validation(L, ci, ok, carried, og.GetVersion(), rel_inv_at_obtain, &rd, "VerifyVersion", false);
             dsim::probe(ok ? pVerifyOk : pVerifyFailed);
@@ -888,6 +897,7 @@ struct Runner {
             {
               SG g = og.TryLockS();
               ok = static_cast<bool>(g);
+              if (!ok && dsim::watched_write_seq() != 0) suspect("[C03]");
               if (ok) granted(L, ci, kS, fTry, "TryLockS", false); else post_call();
               check_validation(L, ci, ok, carried, og.GetVersion(), rel_inv_at_obtain, &rd, "TryLockS", false);
               if (ok) {
@@ -910,6 +920,7 @@ struct Runner {
             {
               SIXG g = og.TryLockSIX();
               ok = static_cast<bool>(g);
+              if (!ok && dsim::watched_write_seq() != 0) suspect("[C03]");
               if (ok) granted(L, ci, kSIX, fTry, "TryLockSIX", false); else post_call();
               check_validation(L, ci, ok, carried, og.GetVersion(), rel_inv_at_obtain, &rd, "TryLockSIX", false);
               if (ok) {
@@ -932,6 +943,7 @@ struct Runner {
             {
               XG g = og.TryLockX();
               ok = static_cast<bool>(g);
+              if (!ok && dsim::watched_write_seq() != 0) suspect("[C03]");
               if (ok) granted(L, ci, kX, fTry, "TryLockX", false); else post_call();
               check_validation(L, ci, ok, carried, og.GetVersion(), rel_inv_at_obtain, &rd, "TryLockX", true);
               if (ok) {
@@ -995,6 +1007,7 @@ struct Runner {
           granted(L, ci, kS, fPrep, "PrepareRead", false);
           dsim::probe(pPrepFallbackS);
         } else {
+          if (dsim::watched_write_seq() != 0) suspect("[C13]");
           post_call();
           check_sampled_version(L, ci, cg.GetVersion(), "PrepareRead", "[C13][C03]");
           dsim::probe(pPrepNonOwning);
@@ -1216,6 +1229,7 @@ void run_family(const Program &p)
 void entry(void *)
 {
   const Program &p = current_program();
+  g_suspect_tags.clear();
   switch (p.family) {
     case 0: run_family<PessA>(p); break;
     case 1: run_family<OptA>(p); break;
@@ -1400,6 +1414,9 @@ std::string tags_for_runtime_class(const Program &p, const char *cls)
 {
   const std::string c = cls;
   if (c.rfind("deadlock", 0) == 0) {
+    if (!g_suspect_tags.empty()) {
+      return (std::string(phase()) == "final" ? "[C02][C07]" : "[C02]") + g_suspect_tags + " after-non-owning-call-modified-lock";
+    }
     if (std::string(phase()) == "final") {
       bool setver = false;
       for (auto &t : p.threads)
